@@ -529,7 +529,7 @@ fn run_unit(unit: &Unit, seed: u64, only: Option<(String, String, String)>, rep:
 }
 
 fn squares(tier: Tier) -> Vec<SquareId> {
-    let widths: &[usize] = tier.pick(&[2, 4, 8], &[2, 4, 8, 16, 32]);
+    let widths: &[usize] = tier.pick(&[2, 4, 8, 16], &[2, 4, 8, 16, 32, 64, 128]);
     let mut out = vec![];
     for w in widths {
         for layout in 0..3 {
@@ -543,10 +543,10 @@ fn units(tier: Tier) -> Vec<Unit> {
     let deep = tier == Tier::Thorough;
     let mut u = vec![Unit::Namespaces];
     // block ranges: n heights, base-3 codes in chunks
-    let n: u32 = tier.pick(8, 10);
+    let n: u32 = tier.pick(10, 12);
     let total = 3u64.pow(n);
     for off in [0u64, (1 << 53) - 2, i64::MAX as u64 - 3, u64::MAX - n as u64] {
-        let chunk = 729;
+        let chunk = 6561;
         let mut lo = 0;
         while lo < total {
             u.push(Unit::Ranges { n, off, lo, hi: (lo + chunk).min(total) });
@@ -571,12 +571,12 @@ fn units(tier: Tier) -> Vec<Unit> {
     for sq in squares(tier) {
         u.push(Unit::Dah { kind: DahKind::Square(sq) });
         u.push(Unit::RowProofs { sq });
-        if sq.w <= tier.pick(8, 16) {
+        if sq.w <= tier.pick(8, 32) {
             u.push(Unit::Shares { sq });
             u.push(Unit::NsProofs { sq });
             u.push(Unit::ShareProofs { sq });
         }
-        if sq.w <= tier.pick(8, 32) {
+        if sq.w <= tier.pick(8, 64) {
             for spec in vals::befp_specs(sq.w) {
                 u.push(Unit::Befp { sq, spec });
             }
@@ -641,7 +641,7 @@ fn main() {
         rep,
         Spec {
             rule: "E1 over deterministic families of valid values, every value through every wire form of its type (one evaluation = one (type, form, value): encode, decode, compare, re-encode, compare). \
-Families: namespaces (7 named constants, v0 zero/max, 80 single-bit and 20 single-byte v0 ids, all 256 v255 ids, 16 seeded); extended headers from the deterministic multi-validator chain builder (one dimension at a time over heights 1..i64::MAX, times with nanosecond corners, 1..7 validators with commit/nil/absent votes, rounds, DAH widths 2..1024 synthetic and real, app versions 1..7, chain ids, absent optional hashes; thorough adds their products) plus ExtendedHeaderGenerator headers; DAHs of every structured square (extended widths 2,4,8 quick; +16,32 thorough; 3 namespace layouts), of the empty square and synthetic ones up to width 1024; every share of those squares (original and parity quadrants) and of every blob; blobs of boundary lengths x share version 0/1 x index None/Some x 4 namespaces x 3 fills; every complete-namespace proof (presence / absence / absence outside the root range) of every row and column for every probe namespace and every leaf-range proof (all ranges up to width 8, single leaves and the full range above), with and without ignore_max_ns; row proofs of every row range (merkle proofs inside and standalone for 1..9/17 leaves); share proofs of every namespace run, every single share and every sub-range (self-checked with verify); bad-encoding fraud proofs decoded from messages assembled from the real trees (both axes, indexes, presence masks, proof-axis mixes) plus corrupt_eds ones; BlockRanges for every well-formed base-3 code (absent/start/continue) over 8 (quick) / 10 (thorough) heights at 4 offsets incl. one ending at u64::MAX (covers all 2^n merged sets and every split into adjacent ranges). \
+Families: namespaces (7 named constants, v0 zero/max, 80 single-bit and 20 single-byte v0 ids, all 256 v255 ids, 16 seeded); extended headers from the deterministic multi-validator chain builder (one dimension at a time over heights 1..i64::MAX, times with nanosecond corners, 1..7 validators with commit/nil/absent votes, rounds, DAH widths 2..1024 synthetic and real, app versions 1..7, chain ids, absent optional hashes, signed proposer priorities, app-hash lengths 0..48; thorough adds their products) plus ExtendedHeaderGenerator headers; DAHs of every structured square (extended widths 2..16 quick, 2..128 thorough, 3 namespace layouts; shares / namespace proofs / share proofs up to width 8 quick, 32 thorough; fraud proofs up to 8 / 64), of the empty square and synthetic ones up to width 1024; every share of those squares (original and parity quadrants) and of every blob; blobs of boundary lengths x share version 0/1 x index None/Some x 4 namespaces x 3 fills; every complete-namespace proof (presence / absence / absence outside the root range) of every row and column for every probe namespace and every leaf-range proof (all ranges up to width 8, single leaves and the full range above), with and without ignore_max_ns; row proofs of every row range (merkle proofs inside and standalone for 1..9/17 leaves); share proofs of every namespace run, every single share and every sub-range (self-checked with verify); bad-encoding fraud proofs decoded from messages assembled from the real trees (both axes, indexes, presence masks, proof-axis mixes) plus corrupt_eds ones; BlockRanges for every well-formed base-3 code (absent/start/continue) over 10 (quick) / 12 (thorough) heights at 4 offsets incl. one ending at u64::MAX (covers all 2^n merged sets and every split into adjacent ranges). \
 distinct = (type, form, value id); non-trivial = all",
             assumptions: &[
                 "values are valid values of their types: built by the library constructors or self-checked with validate()/verify(); Option<Hash> fields are None or Some(Sha256), never Some(Hash::None) (tendermint-rs encodes both as empty bytes)",
